@@ -316,6 +316,19 @@ def expected(case, INF):
                 else:
                     out.append(Num((bi + ai) * si, (abs(bi) + abs(ai)) * abs(si), bex))
             exp[key][v['name']] = out
+        # The pair the optimizer is given must describe the image of the model interval: where the
+        # scaler is negative the image of the upper bound is the lower bound in driver units and
+        # vice versa, "no bound" staying "no bound" on the other side.
+        lo_img, hi_img = exp['lower'][v['name']], exp['upper'][v['name']]
+        lo_out, hi_out = [], []
+        for lq, hq, si in zip(lo_img, hi_img, s):
+            if si < 0:
+                lo_out.append(Num(-INF, F(0), True) if hq.v >= INF and hq.mag == 0 else hq)
+                hi_out.append(Num(INF, F(0), True) if lq.v <= -INF and lq.mag == 0 else lq)
+            else:
+                lo_out.append(lq)
+                hi_out.append(hq)
+        exp['lower'][v['name']], exp['upper'][v['name']] = lo_out, hi_out
         if kind == 'design_var':
             # get -> set without a new optimizer point returns the model to where it was
             exp['rt_model'][v['name']] = [
@@ -382,6 +395,8 @@ class C20(Property):
         'C20_units_fold', 'C20_units_roundtrip',
         'C20_bounds_image', 'C20_bounds_image_vec', 'C20_unbounded_stays_sentinel',
         'C20_bounds_interval_pos', 'C20_bounds_interval_neg', 'C20_inf_sentinels',
+        'C20_bounds_feasible_image', 'C20_bounds_feasible_image_partial',
+        'C20_bounds_unswapped_negative_counterexample', 'C20_scaled_bounds_vec',
         'C20_jac_block', 'C20_jac_block_units', 'C20_jac_chain_rule', 'C20_jac_layouts_agree',
         'C20_jac_units_gate',
         'C20_multiplier_invariant', 'C20_multiplier_roundtrip', 'C20_multiplier_unscale']
@@ -402,13 +417,21 @@ class C20(Property):
         "non-dyadic scalers the comparison uses relative tolerance 1e-12 on the largest term",
         "bounds are declared in the variable's driver units (OpenMDAO convention), so only "
         "adder/scaler apply to them",
+        "the scaled bound pair must describe the image of the model interval: under a negative "
+        "scaler the image of the upper bound is the driver-space lower bound and vice versa",
+        "QP multipliers are requested with use_sparse_solve=False (direct dense least squares); "
+        "the default scipy lsqr is iterative with atol=btol=1e-6 on the driver-scaled system",
         "multipliers after SLSQP are compared with tolerance 1e-4 and only when both runs converged "
         "and the active set is non-degenerate (LICQ + strict complementarity)"]
     level = 'proof'
     level_text = ("The affine maps (ref/ref0 -> adder/scaler with precedence, vector scaling/unscaling "
                   "with the driver_scaling flag, unit conversion folded in, bounds with sentinels, "
                   "Jacobian block scaling in both dict layouts, multiplier unscaling) are modelled in "
-                  "Lean and the property clauses are proved over any ordered field for scalars and "
+                  "Lean (bounds in both variants of _compute_scaled_bounds: the repaired exchange under a "
+                  "negative scaler is proved to give the image of the model interval for every non-zero "
+                  "scaler, the un-exchanged one only for positive scalers, with a kernel-checked "
+                  "counterexample; which variant /repo contains is probed by behaviour) "
+                  "and the property clauses are proved over any ordered field for scalars and "
                   "arrays of any length; the model is tied to the real driver by differential runs "
                   "on generated Problems (exact for dyadic data). Optimizer-reported multipliers are "
                   "checked at run time only (against the exact KKT multipliers of generated QPs).")
@@ -451,8 +474,43 @@ class C20(Property):
             with open(path, 'w') as fh:
                 fh.write(body)
         self._inf = val
+        self.SWAP_NEG = self._probe_swap()
         return ['INF_BOUND literal %s = %d regenerated into OMV/Generated/C20Consts.lean; '
-                'C20_inf_sentinels re-proved on it' % (lit, val.numerator)]
+                'C20_inf_sentinels re-proved on it' % (lit, val.numerator),
+                'model variant compared (probed by behaviour: lower=0, scaler=-1): swapNeg=%s (%s)'
+                % (self.SWAP_NEG, 'scaled bounds exchanged under a negative scaler, /repo cf7cce3'
+                   if self.SWAP_NEG else 'each bound scaled on its own, pinned snapshot')]
+
+    @staticmethod
+    def _probe_swap():
+        """Which variant of Autoscaler._compute_scaled_bounds does /repo contain?  Decided by
+        behaviour on `lower=0, scaler=-1`: (0, +INF) = not exchanged, (-INF, 0) = exchanged."""
+        from common import in_tempdir
+
+        def run():
+            import openmdao.api as om
+            from openmdao.core.constants import INF_BOUND
+            with warnings.catch_warnings():
+                warnings.simplefilter('ignore')
+                p = om.Problem()
+                p.model.add_subsystem('ivc', om.IndepVarComp('x', 1.0), promotes=['*'])
+                p.model.add_subsystem('c', om.ExecComp('f = x'), promotes=['*'])
+                p.model.add_design_var('x', lower=0.0, scaler=-1.0)
+                p.model.add_objective('f')
+                p.setup()
+                p.final_setup()
+                lo, hi, _ = p.driver.autoscaler.get_bounds_scaling('design_var')
+                return float(lo['x'][0]), float(hi['x'][0]), float(INF_BOUND)
+        try:
+            lo, hi, inf = in_tempdir(run)
+        except Exception as e:
+            raise TieBroken('cannot probe the bound-scaling variant: %s: %s' % (type(e).__name__, e))
+        if (lo, hi) == (-inf, 0.0):
+            return True
+        if lo == 0.0 and hi == inf:
+            return False
+        raise TieBroken('bound-scaling probe (lower=0, scaler=-1) returned (%r, %r): neither modelled '
+                        'variant' % (lo, hi))
 
     def setup(self, tier):
         import openmdao.api as om          # noqa: F401  (imported before forking workers)
@@ -966,7 +1024,10 @@ class C20(Property):
                     else (not fail)
                 r['x'] = [float(v) for v in np.asarray(p.get_val('x')).ravel()]
                 try:
-                    dvm, cm = p.driver.compute_lagrange_multipliers(driver_scaling=False)
+                    # dense direct least squares: scipy's iterative lsqr (the default) stops at atol=btol=1e-6
+                    # of the driver-scaled system, which is 1e-3 relative on small components
+                    dvm, cm = p.driver.compute_lagrange_multipliers(driver_scaling=False,
+                                                                    use_sparse_solve=False)
                     r['mu'] = [float(v) for v in np.asarray(
                         dvm['x']['multipliers'] if 'x' in dvm else np.zeros(n)).ravel()]
                     r['lam'] = [float(v) for v in np.asarray(
@@ -1371,7 +1432,7 @@ class C20(Property):
                'back': [rat(1 / f), rat(-o * f)] if has_u else None,
                'y': v.get('setv') if kind == 'design_var' else None,
                'lower': b(v.get('lower')), 'upper': b(v.get('upper')), 'equals': b(v.get('equals')),
-               'bounds': kind != 'objective'}
+               'bounds': kind != 'objective', 'swap_neg': bool(getattr(self, 'SWAP_NEG', True))}
         for k in ('ref0', 'ref', 'adder', 'scaler'):
             req[k] = v['scaling'].get(k)
         return req
